@@ -149,6 +149,35 @@ def _symlinked_path(ctx, data, parts):
     return os.path.join(real, "shards", "..", "stack.pkl")
 
 
+def effective_globals(data):
+    """(module, name) of every GLOBAL / INST / STACK_GLOBAL-with-constant-names as the *stock* unpickler resolves them:
+    Python 2 names are translated only while the announced protocol is below 3 (pickle.Unpickler.find_class)."""
+    import _compat_pickle
+    import pickletools
+    proto, out, strs = 0, [], []
+    for op, arg, _pos in pickletools.genops(data):
+        if op.name == "PROTO":
+            proto = arg
+        if op.name in ("GLOBAL", "INST"):
+            m, n = arg.split(" ", 1)
+        elif op.name == "STACK_GLOBAL" and len(strs) >= 2:
+            m, n = strs[-2], strs[-1]
+        else:
+            if op.name in ("SHORT_BINUNICODE", "BINUNICODE", "UNICODE", "BINUNICODE8"):
+                strs.append(arg)
+            elif op.name not in ("MEMOIZE", "BINPUT", "PUT", "LONG_BINPUT"):
+                strs = strs[-2:] if op.name in ("MEMOIZE",) else []
+            continue
+        if proto < 3:
+            if (m, n) in _compat_pickle.NAME_MAPPING:
+                m, n = _compat_pickle.NAME_MAPPING[(m, n)]
+            elif m in _compat_pickle.IMPORT_MAPPING:
+                m = _compat_pickle.IMPORT_MAPPING[m]
+        out.append((m, n))
+        strs = []
+    return out
+
+
 def check_inject(ctx, f, cli, parts, k, run_last, replace, source):
     agg = ctx.agg
     data = b"".join(parts)
@@ -242,6 +271,20 @@ def check_inject(ctx, f, cli, parts, k, run_last, replace, source):
                           f"without --replace-result the emitted pickle {k} unpickles to {str(refvm.canon(vm1.value))[:100]}, "
                           f"the input's to {str(refvm.canon(vm0.value))[:100]}", w)
             return
+    # ... and it names the input's globals the way the stock unpickler will resolve them (the announced protocol decides
+    # whether Python 2 module names are translated)
+    try:
+        from collections import Counter
+        lost = Counter(effective_globals(parts[k])) - Counter(effective_globals(got[k]))
+        agg.count("effective_globals_compared")
+    except Exception:
+        lost = None
+    if lost:
+        agg.violation("inject-target-resolves-other-globals",
+                      f"the stock unpickler resolves {sorted(lost)[:3]} for the input's pickle {k}; the emitted one no longer names them "
+                      f"(announced protocol {[a for o, a, _ in __import__('pickletools').genops(parts[k]) if o.name == 'PROTO'][:1]} -> "
+                      f"{[a for o, a, _ in __import__('pickletools').genops(got[k]) if o.name == 'PROTO'][:1]})", w)
+        return
     if outt:
         agg.violation("inject-text-on-stdout", f"text mixed into the binary output: {outt[:80]!r}", w)
 
